@@ -4,6 +4,7 @@ import MindsVerif.Gen.Schema
 /-! Line protocol driver for the walker model instantiated with the probed schema.
 input : `log | <tree>`            logging callback (never replaces)
         `rep <tag> | <tree>`      the callback returns a fresh leaf (class `Constant`, tag 999999) for the node `tag`
+        `rept <tag> | <tree>`     … an empty `Tuple` (tag 999997);  `repf <tag> | <tree>` … a falsy node object (tag 999998)
         `find | <tree>`           get_query_params: visits of the walk + number and textual order of the parameters
         `fill <n> | <tree>`       fill_query_params with the values 1000000 … 1000000+n-1
         `seq <op,op,…> | <tree>`  prepared-statement calls on a fresh planner: `p` prepare (a fresh copy of the tree),
@@ -78,6 +79,17 @@ def handle (line : String) : String :=
       | ["rep", x] =>
         match x.toNat? with
         | some x => showOut (walk σ (cbAt x (.mk constC 0 999999 [])) t ()) ""
+        | none => "error: bad tag"
+      | ["rept", x] =>
+        match x.toNat? with
+        | some x => showOut (walk σ (cbAt x (.mk (classId "Tuple") 0 999997 [])) t ()) ""
+        | none => "error: bad tag"
+      | ["repf", x] =>
+        -- a node object of a class outside the schema whose instances are falsy
+        match x.toNat? with
+        | some x =>
+          let σf := σ ++ [⟨[], [], [], true⟩]
+          showOut (walk σf (cbAt x (.mk σ.length 0 999998 [])) t ()) ""
         | none => "error: bad tag"
       | ["find"] =>
         let o := walk σ (cbFind paramC) t []
